@@ -526,8 +526,12 @@ func (c *skelChecker) positions(sk *Skeleton, body []*node, pv string) (string, 
 					}
 				}
 			case "if":
-				if n.cond != nil && n.cond.kind == "dig" && !n.cond.dig.pos.equal(pvLin) {
-					return sprintf("a guard tests the digit at position %s instead of the loop position", newNamer(x.sym).lin(n.cond.dig.pos)), n.pos
+				if n.cond != nil {
+					for _, gc := range digLiterals(n.cond) {
+						if !gc.dig.pos.equal(pvLin) {
+							return sprintf("a guard tests the digit at position %s instead of the loop position", newNamer(x.sym).lin(gc.dig.pos)), n.pos
+						}
+					}
 				}
 			}
 			if d, p := walk(n.body, term); d != "" {
@@ -750,13 +754,14 @@ func (c *skelChecker) polarityAndWidth(sk *Skeleton, rPol, rWidth *report.Rule) 
 			switch n.kind {
 			case "if":
 				switch n.cond.kind {
-				case "dig":
-					gt := g
-					if !n.cond.not {
-						gt.dig = append(append([]*cond{}, g.dig...), n.cond)
-					}
+				case "dig", "and", "or":
+					// the digit-sign literals in force in the then-branch, and
+					// (negated) in the else-branch
+					gt, ge := g, g
+					gt.dig = append(append([]*cond{}, g.dig...), guardsOf(n.cond)...)
+					ge.dig = append(append([]*cond{}, g.dig...), guardsOf(x.negate(n.cond))...)
 					walk(n.body, gt)
-					walk(n.els, g)
+					walk(n.els, ge)
 				case "flag":
 					// then-branch holds when (flag != not); a true flag mirrors add/sub
 					gt, ge := g, g
@@ -792,10 +797,17 @@ func (c *skelChecker) polarityAndWidth(sk *Skeleton, rPol, rWidth *report.Rule) 
 				construct := sprintf("%s %s(%s)@%s", name, dg.rec.kind, dg.rec.src, nm(dg.pos))
 				// sign guard on this digit
 				rel := ""
+				signs := 7
 				for _, gc := range g.dig {
-					if sameDigit(gc.dig, dg) && (gc.rel == ">0" || gc.rel == "<0") {
-						rel = gc.rel
+					if sameDigit(gc.dig, dg) {
+						signs &= signSet(gc.rel)
 					}
+				}
+				switch signs {
+				case 4:
+					rel = ">0"
+				case 1:
+					rel = "<0"
 				}
 				wantOp := "add"
 				wantNeg := false
@@ -863,6 +875,18 @@ func (c *skelChecker) polarityAndWidth(sk *Skeleton, rPol, rWidth *report.Rule) 
 		}
 	}
 	walk(sk.norm, guardCtx{})
+}
+
+// digLiterals lists every digit literal of c.
+func digLiterals(c *cond) []*cond {
+	if c.kind == "dig" {
+		return []*cond{c}
+	}
+	var out []*cond
+	for _, q := range c.sub {
+		out = append(out, digLiterals(q)...)
+	}
+	return out
 }
 
 // swapAddSub returns a copy of list with add and sub exchanged.
